@@ -122,6 +122,16 @@ AMBIG_TWO_RUNGS = """grammar;
 match { r#"%s"# => TA } else { r#"%s"# => TB }
 pub S: () = { TA => (), TB => () };
 """
+# three terminals accepting in one DFA state: the tied (or not) pair on the upper rung, a catch-all of strictly lower
+# precedence below it; the third terminal must not change the verdict.  And three rungs: never ambiguous.
+AMBIG_PAIR_OVER_LOWER = """grammar;
+match { r#"%s"# => TA, r#"%s"# => TB } else { r#"%s"# => TC }
+pub S: () = { TA => (), TB => (), TC => () };
+"""
+AMBIG_THREE_RUNGS = """grammar;
+match { r#"%s"# => TC } else { r#"%s"# => TA } else { r#"%s"# => TB }
+pub S: () = { TA => (), TB => (), TC => () };
+"""
 # a quoted literal against a regex: the literal has higher precedence, never ambiguous
 AMBIG_LITERAL = """grammar;
 pub S: () = { A => (), B => () };
@@ -163,6 +173,14 @@ def _ambig_cases(cfg):
         if n % 3 == 0:
             yield ("%d:%d:same" % (i, j), AMBIG_SAME_RUNG % (p1, p2), 'r"%s" and r"%s" in one match rung' % (p1, p2), witness, True)
             yield ("%d:%d:two" % (i, j), AMBIG_TWO_RUNGS % (p1, p2), 'r"%s" and r"%s" in two match rungs' % (p1, p2), witness, False)
+    catch_all = "[%s]+" % "".join(a["alphabet"])
+    for n, (i, j, p1, p2, witness) in enumerate(ambig_pairs(cfg)):
+        if n % 3 == 1:
+            yield ("%d:%d:lower" % (i, j), AMBIG_PAIR_OVER_LOWER % (p1, p2, catch_all),
+                   'r"%s" and r"%s" in one match rung above a lower-precedence r"%s"' % (p1, p2, catch_all), witness, True)
+        if n % 6 == 2:
+            yield ("%d:%d:three" % (i, j), AMBIG_THREE_RUNGS % (catch_all, p1, p2),
+                   'r"%s", r"%s" and r"%s" in three match rungs' % (catch_all, p1, p2), witness, False)
     for li, lit in enumerate(a.get("literals", [])):
         for j, p2 in enumerate(a["pool"]):
             w = lit if _re.fullmatch(p2, lit) else None
